@@ -68,6 +68,18 @@ CLAIMED: dict[str, tuple[str, str, str, str]] = {
             "UTF-8/JSON decoding and the structural SARIF checks are computed by the harness and enter the "
             "trace as booleans; SARIF is not validated against the official schema (not available offline).",
             TECH),
+    "C05": ("DESIGN.md §5 C05",
+            "spec/Config.tla models the carriers of one option (.thailint.yaml / .thailint.json / pyproject / "
+            "--config / command-line option / per-language override / section spelling), the coded discovery, "
+            "key normalisation, lookup and CLI override (layer B) against the required effective value (layer A); "
+            "exhaustive over all carrier combinations, with a non-vacuity run of a hyphen-only lookup. Every "
+            "case is executed for five graded options (nesting py+ts, srp, collection-pipeline, dry); the "
+            "effective value is measured black-box against reference runs; enabled:false for all 16 documented "
+            "sections x spelling x 5 carriers, 10 switches, monotone sweeps, invalid values and unparsable "
+            "files per carrier are further record kinds; ConfigTrace.tla re-evaluates EffectiveA per record.",
+            "Precedence asserted only when every present carrier sets the option; effective value identified "
+            "by equality with a reference run (references must be pairwise distinct: TakesEffect).",
+            TECH),
 }
 
 REASON_NOT_YET = ("no check registered yet in this build; the TLA+ technique applies (see DESIGN.md §5) "
